@@ -101,7 +101,36 @@ class null_compression : public compression_interface
 struct World
 {
     std::unique_ptr<elfio> el;
+    std::map<uint64_t, std::unique_ptr<dynamic_section_accessor>>   dyn;
+    std::map<uint64_t, std::unique_ptr<note_section_accessor>>      note_sec;
+    std::map<uint64_t, std::unique_ptr<note_segment_accessor>>      note_seg;
+    std::map<uint64_t, std::unique_ptr<modinfo_section_accessor>>   mod;
+    std::map<uint64_t, std::unique_ptr<versym_section_accessor>>    vs;
+    std::map<uint64_t, std::unique_ptr<versym_r_section_accessor>>  vn;
+    std::map<uint64_t, std::unique_ptr<versym_d_section_accessor>>  vd;
 };
+
+void put_b( FILE* out, int tag, std::initializer_list<unsigned long long> vals,
+            const char* p, size_t n, bool is_null = false )
+{
+    fprintf( out, "b %d", tag );
+    for ( auto v : vals )
+        fprintf( out, " %llu", v );
+    fputs( " : ", out );
+    if ( is_null )
+        fputs( "null", out );
+    else
+        put_hex( out, p, n );
+    fputc( '\n', out );
+}
+
+void put_n( FILE* out, int tag, std::initializer_list<unsigned long long> vals )
+{
+    fprintf( out, "n %d", tag );
+    for ( auto v : vals )
+        fprintf( out, " %llu", v );
+    fputc( '\n', out );
+}
 
 enum Tag
 {
@@ -111,11 +140,78 @@ enum Tag
     T_STRGET = 4,
 };
 
+bool handle_ok( const World& w, const std::string& op, const std::vector<std::string>& t )
+{
+    if ( t.size() < 2 )
+        return true;
+    uint64_t k = num( t[1] );
+    if ( op == "dynnum" || op == "dynget" || op == "dynadd" || op == "dynadds" )
+        return w.dyn.count( k ) != 0;
+    if ( op == "notenum" || op == "noteget" )
+        return w.note_sec.count( k ) != 0 || w.note_seg.count( k ) != 0;
+    if ( op == "noteadd" )
+        return w.note_sec.count( k ) != 0;
+    if ( op == "modnum" || op == "modget" || op == "modfind" || op == "modadd" )
+        return w.mod.count( k ) != 0;
+    if ( op == "vsnum" || op == "vsget" || op == "vsmod" || op == "vsadd" )
+        return w.vs.count( k ) != 0;
+    if ( op == "vnnum" || op == "vnget" )
+        return w.vn.count( k ) != 0;
+    if ( op == "vdnum" || op == "vdget" )
+        return w.vd.count( k ) != 0;
+    return true;
+}
+
 void run_case( const Case& c, FILE* out )
 {
     World w;
     for ( const auto& t : c.ops ) {
         const std::string& op = t[0];
+        if ( op == "hashelf" || op == "hashgnu" ) {
+            std::string nm = unhex( t[1] );
+            uint32_t    hv = op == "hashelf" ? elf_hash( (const unsigned char*)nm.c_str() )
+                                             : elf_gnu_hash( (const unsigned char*)nm.c_str() );
+            put_n( out, 90, { op == "hashelf" ? 0ull : 1ull, hv } );
+            continue;
+        }
+        if ( op != "ctor" && !w.el ) {
+            fprintf( out, "harness-error no-object\n" );
+            return;
+        }
+        {
+            // positions of arguments that must name an existing section
+            static const std::map<std::string, std::vector<int>> secargs = {
+                { "secset", { 1 } }, { "dset", { 1 } }, { "dapp", { 1 } }, { "dins", { 1 } },
+                { "getdata", { 1 } }, { "free", { 1 } }, { "stradd", { 1 } }, { "strget", { 1 } },
+                { "symadd", { 1 } }, { "symadds", { 1, 2 } }, { "symget", { 1 } }, { "symname", { 1 } },
+                { "symval", { 1 } }, { "symnum", { 1 } }, { "reladd", { 1 } }, { "reladdi", { 1 } },
+                { "relget", { 1 } }, { "relgetf", { 1 } }, { "relset", { 1 } }, { "relswap", { 1 } },
+                { "relnum", { 1 } }, { "dynnew", { 2 } }, { "arradd", { 1 } }, { "arrget", { 1 } },
+                { "arrnum", { 1 } }, { "modnew", { 2 } }, { "vsnew", { 2 } }, { "vnnew", { 2 } },
+                { "vdnew", { 2 } } };
+            auto sa = secargs.find( op );
+            bool bad = false;
+            if ( sa != secargs.end() ) {
+                for ( int pos : sa->second )
+                    if ( (size_t)pos >= t.size() || w.el->sections[(unsigned)num( t[pos] )] == nullptr )
+                        bad = true;
+            }
+            if ( op == "arrange" && ( w.el->sections[(unsigned)num( t[1] )] == nullptr ||
+                                      ( num( t[2] ) != 65535 && w.el->sections[(unsigned)num( t[2] )] == nullptr ) ) )
+                bad = true;
+            if ( op == "notenew" && t[2] == "sec" && w.el->sections[(unsigned)num( t[3] )] == nullptr )
+                bad = true;
+            if ( op == "notenew" && t[2] == "seg" && num( t[3] ) >= w.el->segments.size() )
+                bad = true;
+            if ( bad ) {
+                fprintf( out, "harness-error bad-section %s\n", op.c_str() );
+                return;
+            }
+        }
+        if ( !handle_ok( w, op, t ) ) {
+            fprintf( out, "harness-error bad-handle %s\n", op.c_str() );
+            return;
+        }
         if ( op == "ctor" ) {
             if ( t[1] == "compr" )
                 w.el.reset( new elfio( new null_compression ) );
@@ -203,6 +299,318 @@ void run_case( const Case& c, FILE* out )
             else
                 put_hex( out, r, strlen( r ) );
             fputc( '\n', out );
+        }
+        // ---------------------------------------------------------- symbols
+        else if ( op == "symadd" ) {
+            symbol_section_accessor a( *w.el, w.el->sections[(unsigned)num( t[1] )] );
+            Elf_Word r = a.add_symbol( (Elf_Word)num( t[2] ), num( t[3] ), num( t[4] ),
+                                       (unsigned char)num( t[5] ), (unsigned char)num( t[6] ),
+                                       (Elf_Half)num( t[7] ) );
+            put_n( out, 10, { r } );
+        }
+        else if ( op == "symadds" ) {
+            symbol_section_accessor a( *w.el, w.el->sections[(unsigned)num( t[1] )] );
+            string_section_accessor st( w.el->sections[(unsigned)num( t[2] )] );
+            std::string             nm = unhex( t[3] );
+            Elf_Word r = a.add_symbol( st, nm.c_str(), num( t[4] ), num( t[5] ),
+                                       (unsigned char)num( t[6] ), (unsigned char)num( t[7] ),
+                                       (Elf_Half)num( t[8] ) );
+            put_n( out, 10, { r } );
+        }
+        else if ( op == "symget" || op == "symname" || op == "symval" ) {
+            unsigned                si = (unsigned)num( t[1] );
+            symbol_section_accessor a( *w.el, w.el->sections[si] );
+            std::string   name;
+            Elf64_Addr    value = 0;
+            Elf_Xword     size  = 0;
+            unsigned char bind = 0, type = 0, other = 0;
+            Elf_Half      shndx = 0;
+            if ( op == "symget" ) {
+                uint64_t idx = num( t[2] );
+                bool r = a.get_symbol( (Elf_Xword)idx, name, value, size, bind, type, shndx, other );
+                if ( r )
+                    put_b( out, 11, { si, idx, 1, value, size, bind, type, shndx, other }, name.data(), name.size() );
+                else
+                    put_b( out, 11, { si, idx, 0 }, "", 0 );
+            }
+            else if ( op == "symname" ) {
+                std::string q = unhex( t[2] );
+                bool r = a.get_symbol( q, value, size, bind, type, shndx, other );
+                if ( r )
+                    put_b( out, 12, { si, 1, value, size, bind, type, shndx, other }, q.data(), q.size() );
+                else
+                    put_b( out, 12, { si, 0 }, q.data(), q.size() );
+            }
+            else {
+                Elf64_Addr v = num( t[2] );
+                bool r = a.get_symbol( v, name, size, bind, type, shndx, other );
+                if ( r )
+                    put_b( out, 13, { si, 1, size, bind, type, shndx, other }, name.data(), name.size() );
+                else
+                    put_b( out, 13, { si, 0 }, "", 0 );
+            }
+        }
+        else if ( op == "symnum" ) {
+            unsigned                si = (unsigned)num( t[1] );
+            symbol_section_accessor a( *w.el, w.el->sections[si] );
+            put_n( out, 14, { si, a.get_symbols_num() } );
+        }
+        else if ( op == "arrange" ) {
+            unsigned                si = (unsigned)num( t[1] );
+            unsigned                ri = (unsigned)num( t[2] );
+            symbol_section_accessor a( *w.el, w.el->sections[si] );
+            Elf_Xword               r;
+            if ( ri == 65535 ) {
+                r = a.arrange_local_symbols();
+            }
+            else {
+                relocation_section_accessor rel( *w.el, w.el->sections[ri] );
+                r = a.arrange_local_symbols( [&]( Elf_Xword first, Elf_Xword second ) {
+                    rel.swap_symbols( first, second );
+                } );
+            }
+            put_n( out, 15, { r, w.el->sections[si]->get_info() } );
+        }
+        // ---------------------------------------------------------- relocations
+        else if ( op == "reladd" ) {
+            relocation_section_accessor a( *w.el, w.el->sections[(unsigned)num( t[1] )] );
+            if ( t[2] == "1" )
+                a.add_entry( num( t[3] ), (Elf_Word)num( t[4] ), (unsigned)num( t[5] ), (Elf_Sxword)num( t[6] ) );
+            else
+                a.add_entry( num( t[3] ), (Elf_Word)num( t[4] ), (unsigned)num( t[5] ) );
+        }
+        else if ( op == "reladdi" ) {
+            relocation_section_accessor a( *w.el, w.el->sections[(unsigned)num( t[1] )] );
+            if ( t[2] == "1" )
+                a.add_entry( num( t[3] ), (Elf_Xword)num( t[4] ), (Elf_Sxword)num( t[5] ) );
+            else
+                a.add_entry( num( t[3] ), (Elf_Xword)num( t[4] ) );
+        }
+        else if ( op == "relget" ) {
+            unsigned                    ri = (unsigned)num( t[1] );
+            relocation_section_accessor a( *w.el, w.el->sections[ri] );
+            uint64_t   idx = num( t[2] );
+            Elf64_Addr offset = 0;
+            Elf_Word   symbol = 0;
+            unsigned   type   = 0;
+            Elf_Sxword addend = 0;
+            bool r = a.get_entry( idx, offset, symbol, type, addend );
+            if ( r )
+                put_n( out, 20, { ri, idx, 1, offset, symbol, type, (unsigned long long)addend } );
+            else
+                put_n( out, 20, { ri, idx, 0 } );
+        }
+        else if ( op == "relgetf" ) {
+            unsigned                    ri = (unsigned)num( t[1] );
+            relocation_section_accessor a( *w.el, w.el->sections[ri] );
+            uint64_t    idx = num( t[2] );
+            Elf64_Addr  offset = 0, symv = 0;
+            std::string symname;
+            unsigned    type   = 0;
+            Elf_Sxword  addend = 0, calc = 0;
+            bool r = a.get_entry( idx, offset, symv, symname, type, addend, calc );
+            if ( r )
+                put_b( out, 21, { ri, idx, 1, offset, symv, type, (unsigned long long)addend, (unsigned long long)calc },
+                       symname.data(), symname.size() );
+            else
+                put_b( out, 21, { ri, idx, 0 }, "", 0 );
+        }
+        else if ( op == "relset" ) {
+            relocation_section_accessor a( *w.el, w.el->sections[(unsigned)num( t[1] )] );
+            bool r = a.set_entry( num( t[2] ), num( t[3] ), (Elf_Word)num( t[4] ), (unsigned)num( t[5] ),
+                                  (Elf_Sxword)num( t[6] ) );
+            put_n( out, 22, { r ? 1ull : 0ull } );
+        }
+        else if ( op == "relswap" ) {
+            relocation_section_accessor a( *w.el, w.el->sections[(unsigned)num( t[1] )] );
+            a.swap_symbols( num( t[2] ), num( t[3] ) );
+        }
+        else if ( op == "relnum" ) {
+            unsigned                    ri = (unsigned)num( t[1] );
+            relocation_section_accessor a( *w.el, w.el->sections[ri] );
+            put_n( out, 23, { ri, a.get_entries_num() } );
+        }
+        // ---------------------------------------------------------- dynamic
+        else if ( op == "dynnew" ) {
+            w.dyn[num( t[1] )].reset(
+                new dynamic_section_accessor( *w.el, w.el->sections[(unsigned)num( t[2] )] ) );
+        }
+        else if ( op == "dynnum" ) {
+            uint64_t k = num( t[1] );
+            put_n( out, 30, { k, w.dyn.at( k )->get_entries_num() } );
+        }
+        else if ( op == "dynget" ) {
+            uint64_t    k = num( t[1] ), idx = num( t[2] );
+            Elf_Xword   tag = 0, value = 0;
+            std::string str;
+            bool        r = w.dyn.at( k )->get_entry( idx, tag, value, str );
+            if ( r )
+                put_b( out, 31, { k, idx, 1, tag, value }, str.data(), str.size() );
+            else
+                put_b( out, 31, { k, idx, 0 }, "", 0 );
+        }
+        else if ( op == "dynadd" ) {
+            w.dyn.at( num( t[1] ) )->add_entry( (Elf_Xword)num( t[2] ), (Elf_Xword)num( t[3] ) );
+        }
+        else if ( op == "dynadds" ) {
+            w.dyn.at( num( t[1] ) )->add_entry( (Elf_Xword)num( t[2] ), unhex( t[3] ) );
+        }
+        // ---------------------------------------------------------- notes
+        else if ( op == "notenew" ) {
+            uint64_t k = num( t[1] );
+            if ( t[2] == "seg" ) {
+                w.note_sec.erase( k );
+                w.note_seg[k].reset(
+                    new note_segment_accessor( *w.el, w.el->segments[(unsigned)num( t[3] )] ) );
+            }
+            else {
+                w.note_seg.erase( k );
+                w.note_sec[k].reset(
+                    new note_section_accessor( *w.el, w.el->sections[(unsigned)num( t[3] )] ) );
+            }
+        }
+        else if ( op == "notenum" ) {
+            uint64_t k = num( t[1] );
+            Elf_Word n = w.note_sec.count( k ) ? w.note_sec.at( k )->get_notes_num()
+                                               : w.note_seg.at( k )->get_notes_num();
+            put_n( out, 40, { k, n } );
+        }
+        else if ( op == "noteget" ) {
+            uint64_t    k = num( t[1] ), idx = num( t[2] );
+            Elf_Word    type = 0, descsz = 0;
+            std::string name;
+            char*       desc = nullptr;
+            bool        r    = w.note_sec.count( k )
+                                   ? w.note_sec.at( k )->get_note( (Elf_Word)idx, type, name, desc, descsz )
+                                   : w.note_seg.at( k )->get_note( (Elf_Word)idx, type, name, desc, descsz );
+            if ( r ) {
+                put_b( out, 41, { k, idx, 1, type, descsz }, name.data(), name.size() );
+                put_b( out, 42, { k, idx }, desc, desc ? descsz : 0, desc == nullptr );
+            }
+            else
+                put_b( out, 41, { k, idx, 0 }, "", 0 );
+        }
+        else if ( op == "noteadd" ) {
+            std::string nm = unhex( t[3] ), d = unhex( t[4] );
+            w.note_sec.at( num( t[1] ) )
+                ->add_note( (Elf_Word)num( t[2] ), nm, d.empty() ? nullptr : d.data(), (Elf_Word)d.size() );
+        }
+        // ---------------------------------------------------------- arrays
+        else if ( op == "arradd" || op == "arrget" || op == "arrnum" ) {
+            unsigned si = (unsigned)num( t[1] );
+            bool     w8 = num( t[2] ) == 8;
+            section* sec = w.el->sections[si];
+            if ( op == "arradd" ) {
+                if ( w8 ) { array_section_accessor<Elf64_Addr> a( *w.el, sec ); a.add_entry( num( t[3] ) ); }
+                else      { array_section_accessor<Elf32_Word> a( *w.el, sec ); a.add_entry( num( t[3] ) ); }
+            }
+            else if ( op == "arrget" ) {
+                uint64_t   idx = num( t[3] );
+                Elf64_Addr v   = 0;
+                bool       r;
+                if ( w8 ) { array_section_accessor<Elf64_Addr> a( *w.el, sec ); r = a.get_entry( idx, v ); }
+                else      { array_section_accessor<Elf32_Word> a( *w.el, sec ); r = a.get_entry( idx, v ); }
+                if ( r ) put_n( out, 50, { si, idx, 1, v } );
+                else     put_n( out, 50, { si, idx, 0 } );
+            }
+            else {
+                Elf_Xword n;
+                if ( w8 ) { array_section_accessor<Elf64_Addr> a( *w.el, sec ); n = a.get_entries_num(); }
+                else      { array_section_accessor<Elf32_Word> a( *w.el, sec ); n = a.get_entries_num(); }
+                put_n( out, 51, { si, n } );
+            }
+        }
+        // ---------------------------------------------------------- modinfo
+        else if ( op == "modnew" ) {
+            w.mod[num( t[1] )].reset( new modinfo_section_accessor( w.el->sections[(unsigned)num( t[2] )] ) );
+        }
+        else if ( op == "modnum" ) {
+            uint64_t k = num( t[1] );
+            put_n( out, 60, { k, w.mod.at( k )->get_attribute_num() } );
+        }
+        else if ( op == "modget" ) {
+            uint64_t    k = num( t[1] ), no = num( t[2] );
+            std::string f, v;
+            bool        r = w.mod.at( k )->get_attribute( (Elf_Word)no, f, v );
+            if ( r ) {
+                put_b( out, 61, { k, no, 1 }, f.data(), f.size() );
+                put_b( out, 62, { k, no }, v.data(), v.size() );
+            }
+            else
+                put_b( out, 61, { k, no, 0 }, "", 0 );
+        }
+        else if ( op == "modfind" ) {
+            uint64_t    k = num( t[1] );
+            std::string f = unhex( t[2] ), v;
+            bool        r = w.mod.at( k )->get_attribute( std::string_view( f ), v );
+            if ( r ) put_b( out, 63, { k, 1 }, v.data(), v.size() );
+            else     put_b( out, 63, { k, 0 }, "", 0 );
+        }
+        else if ( op == "modadd" ) {
+            uint64_t k = num( t[1] );
+            Elf_Word r = w.mod.at( k )->add_attribute( unhex( t[2] ), unhex( t[3] ) );
+            put_n( out, 64, { k, r } );
+        }
+        // ---------------------------------------------------------- versym
+        else if ( op == "vsnew" ) {
+            w.vs[num( t[1] )].reset( new versym_section_accessor( w.el->sections[(unsigned)num( t[2] )] ) );
+        }
+        else if ( op == "vsnum" ) {
+            uint64_t k = num( t[1] );
+            put_n( out, 70, { k, w.vs.at( k )->get_entries_num() } );
+        }
+        else if ( op == "vsget" ) {
+            uint64_t k = num( t[1] ), no = num( t[2] );
+            Elf_Half v = 0;
+            bool     r = w.vs.at( k )->get_entry( (Elf_Word)no, v );
+            if ( r ) put_n( out, 71, { k, no, 1, v } );
+            else     put_n( out, 71, { k, no, 0 } );
+        }
+        else if ( op == "vsmod" ) {
+            uint64_t k = num( t[1] );
+            bool     r = w.vs.at( k )->modify_entry( (Elf_Word)num( t[2] ), (Elf_Half)num( t[3] ) );
+            put_n( out, 72, { k, r ? 1ull : 0ull } );
+        }
+        else if ( op == "vsadd" ) {
+            uint64_t k = num( t[1] );
+            bool     r = w.vs.at( k )->add_entry( (Elf_Half)num( t[2] ) );
+            put_n( out, 73, { k, r ? 1ull : 0ull } );
+        }
+        else if ( op == "vnnew" ) {
+            w.vn[num( t[1] )].reset( new versym_r_section_accessor( *w.el, w.el->sections[(unsigned)num( t[2] )] ) );
+        }
+        else if ( op == "vnnum" ) {
+            uint64_t k = num( t[1] );
+            put_n( out, 80, { k, w.vn.at( k )->get_entries_num() } );
+        }
+        else if ( op == "vnget" ) {
+            uint64_t    k = num( t[1] ), no = num( t[2] );
+            Elf_Half    version = 0, flags = 0, other = 0;
+            Elf_Word    hash = 0;
+            std::string file, dep;
+            bool r = w.vn.at( k )->get_entry( (Elf_Word)no, version, file, hash, flags, other, dep );
+            if ( r ) {
+                put_b( out, 81, { k, no, 1, version, hash, flags, other }, file.data(), file.size() );
+                put_b( out, 82, { k, no }, dep.data(), dep.size() );
+            }
+            else
+                put_b( out, 81, { k, no, 0 }, "", 0 );
+        }
+        else if ( op == "vdnew" ) {
+            w.vd[num( t[1] )].reset( new versym_d_section_accessor( *w.el, w.el->sections[(unsigned)num( t[2] )] ) );
+        }
+        else if ( op == "vdnum" ) {
+            uint64_t k = num( t[1] );
+            put_n( out, 85, { k, w.vd.at( k )->get_entries_num() } );
+        }
+        else if ( op == "vdget" ) {
+            uint64_t    k = num( t[1] ), no = num( t[2] );
+            Elf_Half    flags = 0, ndx = 0;
+            Elf_Word    hash = 0;
+            std::string dep;
+            bool        r = w.vd.at( k )->get_entry( (Elf_Word)no, flags, ndx, hash, dep );
+            if ( r ) put_b( out, 86, { k, no, 1, flags, ndx, hash }, dep.data(), dep.size() );
+            else     put_b( out, 86, { k, no, 0 }, "", 0 );
         }
         else {
             fprintf( out, "harness-error unknown-op %s\n", op.c_str() );
